@@ -1,0 +1,18 @@
+//go:build verif
+// +build verif
+
+package utils
+
+// Verification hooks (build tag `verif`). Add-only.
+
+import uuid "github.com/satori/go.uuid"
+
+// VerifCreateWithId registers a notification channel under a caller-chosen id (the harness replays log entries
+// whose notification id is already fixed).
+func (this *Notificator) VerifCreateWithId(id uuid.UUID, bufSize int) <-chan interface{} {
+	c := make(chan interface{}, bufSize)
+	this.mu.Lock()
+	this.chans[id] = c
+	this.mu.Unlock()
+	return c
+}
